@@ -56,9 +56,9 @@ out.append(b)
 
 rings_max = 2 if tier == 'quick' else 3
 b = Bounded('segmented.hex_segments::count_overlap_border',
-            'rings 1..%d, seg_radius in {6, 7.5, 9}, seg_gap in {0, 1, 2.5}, rotate in {False, True}, drop lists {(0,), (), (0, 3)}; non-antialiased' % rings_max,
+            'rings 1..%d, seg_radius in {6, 7.5, 9}, seg_gap in {0, 0.25, 0.5, 1, 2.5}, rotate in {False, True}, drop lists {(0,), (), (0, 3)}; non-antialiased' % rings_max,
             'k rings hold 1+3k(k+1) segments minus those dropped, mutually non-overlapping (gap > 0) and clear of the array border')
-for rings, rad, gap, rot, drop in itertools.product(range(1, rings_max + 1), (6, 7.5, 9), (0, 1, 2.5), (False, True), ((0,), (), (0, 3))):
+for rings, rad, gap, rot, drop in itertools.product(range(1, rings_max + 1), (6, 7.5, 9), (0, 0.25, 0.5, 1, 2.5), (False, True), ((0,), (), (0, 3))):
     m = lentil.hex_segments(rings, rad, gap, rotate=rot, antialias=False, drop=drop)
     want = 1 + 3 * rings * (rings + 1) - len([d for d in drop if d <= 3 * rings * (rings + 1)])
     tot = m.sum(axis=0)
